@@ -342,6 +342,11 @@ func (s *session) exec(line string) (string, error) {
 				return nil, err
 			}
 			consumed = func() int { return cr.pos }
+			// every other non-seekable source has a Seek method that always fails (the read end
+			// of a pipe is such a source)
+			if pipeAlt++; pipeAlt%2 == 0 {
+				return pipeLike{cr}, nil
+			}
 			return cr, nil
 		}
 		if toks[0] == "memdecode" {
@@ -690,4 +695,13 @@ func Main(reg *Registry) {
 			return
 		}
 	}
+}
+
+var pipeAlt int
+
+type pipeLike struct{ r io.Reader }
+
+func (p pipeLike) Read(b []byte) (int, error) { return p.r.Read(b) }
+func (p pipeLike) Seek(int64, int) (int64, error) {
+	return 0, errors.New("seek: illegal seek")
 }
